@@ -319,7 +319,7 @@ func hasVisitedGuard(info *types.Info, body ast.Node) (string, bool) {
 // string (TrimPrefix, case conversion, …) makes export → import → export
 // differ for some names.
 func verbatimImport(r *core.Run, imp []ast.Node, info *types.Info) {
-	r.Rule("R-SYM/S5v", "in schema_from_desc.go every string- or boolean-typed field of the rebuilt schema that is fed from the source description is the source field itself (a selector chain or its generated getter), not the result of a call applied to it or of a boolean combination with other source attributes; the exporter writes the in-memory strings unchanged, so any transformation on the way back is not idempotent for some names")
+	r.Rule("R-SYM/S5v", "in schema_from_desc.go every string- or boolean-typed field of the rebuilt schema (also a map or list of strings, such as enum option info) that is fed from the source description is the source field itself (a selector chain or its generated getter), not the result of a call applied to it or of a boolean combination with other source attributes; the exporter writes the in-memory strings unchanged, so any transformation on the way back is not idempotent for some names")
 	n := 0
 	for _, body := range imp {
 		ast.Inspect(body, func(nd ast.Node) bool {
@@ -341,7 +341,60 @@ func verbatimImport(r *core.Run, imp []ast.Node, info *types.Info) {
 				return true
 			}
 			bt, ok := info.TypeOf(rhs).Underlying().(*types.Basic)
-			if !ok || (bt.Kind() != types.String && bt.Info()&types.IsBoolean == 0) {
+			if !ok {
+				// collections of strings (option info, lists of names) are copied the same way
+				var el types.Type
+				switch u := info.TypeOf(rhs).Underlying().(type) {
+				case *types.Map:
+					el = u.Elem()
+				case *types.Slice:
+					el = u.Elem()
+				}
+				if el == nil {
+					return true
+				}
+				eb, isBasic := el.Underlying().(*types.Basic)
+				if !isBasic || eb.Kind() != types.String {
+					return true
+				}
+				if c, isCall := core.Unparen(rhs).(*ast.CallExpr); isCall {
+					switch core.CalleeName(info, c) {
+					case "maps.Clone", "slices.Clone":
+						return true
+					}
+					if i := strings.Index(core.CalleeName(info, c), "["); i > 0 {
+						switch core.CalleeName(info, c)[:i] {
+						case "maps.Clone", "slices.Clone":
+							return true
+						}
+					}
+				}
+				// an element-by-element copy or conversion (no call but builtins and conversions, no branch) is the collection itself
+				if c, isCall := core.Unparen(rhs).(*ast.CallExpr); isCall {
+					if fn := core.CalleeFunc(info, c); fn != nil && fn.Pkg() != nil && core.IsSource(fn.Pkg().Path()) {
+						if cpk := r.P.ByPkg[fn.Pkg().Path()]; cpk != nil {
+							if cd := core.DeclOf(cpk, fn.Origin()); cd != nil && cd.Body != nil {
+								plain := true
+								ast.Inspect(cd.Body, func(m ast.Node) bool {
+									switch z := m.(type) {
+									case *ast.IfStmt, *ast.SwitchStmt, *ast.TypeSwitchStmt:
+										plain = false
+									case *ast.CallExpr:
+										if _, isB := cpk.TypesInfo.Uses[identOfFun(z.Fun)].(*types.Builtin); !isB && !core.IsConversion(cpk.TypesInfo, z) {
+											plain = false
+										}
+									}
+									return plain
+								})
+								if plain {
+									return true
+								}
+							}
+						}
+					}
+				}
+				bt = types.Typ[types.String]
+			} else if bt.Kind() != types.String && bt.Info()&types.IsBoolean == 0 {
 				return true
 			}
 			readsSrc := func(e ast.Expr) bool {
@@ -529,4 +582,11 @@ func exportNoOverride(r *core.Run, pk *packages.Package) {
 		}
 	})
 	r.Analysed["export_overrides"] = n
+}
+
+func identOfFun(e ast.Expr) *ast.Ident {
+	if id, ok := e.(*ast.Ident); ok {
+		return id
+	}
+	return nil
 }
